@@ -8,7 +8,7 @@ from cpverif import conform as C
 from cpverif import model as M
 from cpverif import strategies as G
 from cpverif import trackcheck as T
-from cpverif.core import Ctx, Part, custom_part, hyp_part
+from cpverif.core import Ctx, Part, custom_part, enum_part, hyp_part
 from cpverif.lib import L
 
 RULE = (
@@ -415,7 +415,22 @@ def check_section(ctx: Ctx, case) -> None:
              classes=[f"nonmembers_{min(nx, 4)}"], sample={"lines": rc["lines"][:12]})
 
 
+def long_cases(ctx: Ctx):
+    """Lines longer than any plausible line buffer or length guard (2^16 characters and beyond): padding of
+    70 000 blanks / tabs on either side, an 80 000-character word, a 70 000-digit... no: 4 000-digit tick."""
+    for pad in G.HUGE_PADS:
+        for lp, rp in ((pad, ""), ("", pad), (pad, pad[:66000])):
+            yield {"line": f"{lp}96 = N 3 48{rp}", "kind": "N", "want": [96, 3, 48]}
+            yield {"line": f"{lp}96 = S 2 48{rp}", "kind": "S", "want": [96, 48]}
+            yield {"line": f"{lp}96 = E solo{rp}", "kind": "E", "want": [96, "solo"]}
+    yield {"line": "7 = E " + "w" * 80000, "kind": "E", "want": [7, "w" * 80000]}
+    yield {"line": "  7 = E " + "é" * 66000 + " ", "kind": "E", "want": [7, "é" * 66000]}
+    big = "9" * 4000
+    yield {"line": f"  {big} = N 0 {big}", "kind": "N", "want": [int(big), 0, int(big)]}
+
+
 PARTS: list[Part] = [
+    enum_part("long", long_cases, check_positive, {"quick": 2, "thorough": 2}),
     custom_part("slots", drive_slots, check_slots, {"quick": 12, "thorough": 16}),
     hyp_part("positives", strat_positives, check_positive, {"quick": 1500, "thorough": 25000},
              {"quick": 2, "thorough": 16}),
